@@ -192,6 +192,14 @@ def run_writer(cfg, res):
         else:
           m = 'new%d' % r.randint(1, max(1, mcount))
         cache.store(m, (int(vt.time()) - r.randint(0, 5), 1.0))
+      if r.random() < 0.15:
+        # a backlog: series that piled up thousands of points each (stalled disk); one update per series and token all the same
+        for b in range(r.randint(1, 4)):
+          mcount += 1
+          base = int(vt.time()) - 5000
+          for k in range(r.choice([999, 1000, 1001, 2500, 3001])):
+            cache.store('new%d' % mcount, (base + k, 1.0))
+        res.count('backlog_series_rounds')
       if rnd >= 1 and not changes and cfg['shutdown'] is not None and r.random() < 0.4:
         writer.shutdownModifyUpdateSpeed()
         changes.append(len(memdb.CALL_LOG))
